@@ -40,6 +40,10 @@ k("ts_cover_times_rev", *TS, ["C02", "C03", "C10", "C20"], "cover", assumes=[A1]
 k("ts_cover_infinite_fwd", *TS, ["C02", "C03", "C10", "C20"], "cover", assumes=[A1])
 k("ts_canary_must_fail", *TS, ["C02", "C03", "C07", "C10", "C20"], "canary")
 
+FA = ("verif_float_axioms", "mina_core", "core/src/verif_float_axioms.rs")
+for n in ("axioms_unary", "axioms_binary", "axioms_ternary", "total_cmp_order_implies_fle"):
+    k(n, *FA, ["C01", "C08", "C10"], "lemma", clause="A2 cross-check: the f32 order axioms route V assumes hold for all f32 bit patterns")
+
 V = []
 def v(id, function, props, kind="contract", clause=None, tier="quick"):
     V.append({"id": id, "function": function, "props": props, "kind": kind, "clause": clause, "tier": tier, "assumes": ["A2", "A3"]})
@@ -51,6 +55,8 @@ v("v_get_bounding_frames", "SubTimeline::get_bounding_frames", ["C01", "C08", "C
 v("v_get_frame", "SubTimeline::get_frame", ["C01", "C10", "C04"], clause="result == spec_frame_at: override iff enabled && index == 0 && override present")
 v("v_override_start_value", "SubTimeline::override_start_value", ["C09", "C10", "C04"],
   clause="frames, map untouched; override REPLACED by frame0.with_value(v) (time, easing of frame 0); wf and linked preserved; no-op on empty")
+v("v_value_at", "SubTimeline::value_at", ["C01", "C02", "C08", "C10", "C20"],
+  clause="for EVERY size: empty map / hint outside => None (field never assigned); else Some(interpolate(lookup(clamp t), clamp t)): clamp before lookup, the pair is spec_bounding's")
 v("v_empty", "SubTimeline::empty", ["C08"], clause="empty frames, empty map, no override, wf")
 v("v_split_new", "SplitKeyframe::new", ["C01"], clause="fields are the arguments")
 v("v_split_with_time", "SplitKeyframe::with_time", ["C01"], clause="time replaced, value cloned, easing kept")
